@@ -53,8 +53,8 @@ var propSpecs = map[string]PropSpec{
 	"C11": {Profile: Profile{MaxCap: 10, MaxOps: 10, BigData: true, Backends: bothBackends, Rejects: 40, ObsReload: true, DetBias: 300, Foreign: 450, BadMagic: 300},
 		Kinds: kinds("file", "rl", "hdr", "obj", "res", "shape"), Cases: [2]int{400, 8000}, Oracles: []string{"C11"}, Shipped: true,
 		Corr: "corr.C11.layout (Lean encoder = library writer, byte for byte; Lean decoder = library reader)"},
-	"C12": {Profile: Profile{MaxCap: 6, MaxOps: 14, Backends: bothBackends, Rejects: 100, DetBias: 800},
-		Kinds: kinds("file", "hdr", "obj", "shape"), Cases: [2]int{250, 4000}, TwoRuns: true,
+	"C12": {Profile: Profile{MaxCap: 8, MaxOps: 14, Backends: bothBackends, Rejects: 100, DetBias: 800, Sign: 120},
+		Kinds: kinds("file", "hdr", "obj", "sg", "md", "shape"), Cases: [2]int{250, 4000}, TwoRuns: true,
 		Corr: "corr.C12.bytes (model bytes with explicit clock parameter = library bytes)"},
 	"C13": {Profile: Profile{MaxCap: 6, MaxOps: 12, Queries: 14, Backends: []string{"buf"}, Rejects: 60, DetBias: 900, Foreign: 150},
 		Kinds: kinds("q", "shape"), Cases: [2]int{400, 8000}, Oracles: []string{"C13"},
@@ -461,10 +461,18 @@ func dependsOnClock(c *Case) []bool {
 			if dep[i] {
 				det = false
 			}
-		case "add", "del", "setprim", "setmeta", "setoci":
-			if op.T.Kind == "dflt" && !det {
+		case "add", "del", "setprim", "setmeta", "setoci", "sign":
+			t := op.T
+			if op.Kind == "sign" {
+				t = op.S.T
+			}
+			if t.Kind == "dflt" && !det {
 				dep[i] = true
 			}
+			if t.Kind == "at" && okOp[i] {
+				det = false
+			}
+			continue
 			// an explicit time makes the image non-deterministic only if the call was accepted:
 			// a rejected call must leave the image (and its determinism) as it was
 			if op.T.Kind == "at" && okOp[i] {
@@ -567,6 +575,10 @@ func secondRunC12(dir string, c *Case) *Violation {
 			}
 		case "del", "setprim", "setmeta", "setoci":
 			if op.T.Kind == "at" {
+				allDet = false
+			}
+		case "sign":
+			if op.S.T.Kind == "at" {
 				allDet = false
 			}
 		}
